@@ -24,6 +24,9 @@ CONSTANTS
   WriteErrKeepsEntry = FALSE
   AllowFire = FALSE
   FireRegisters = FALSE
+  RFault = TRUE
+  ReadErrEndsCalls = FALSE
+  LoopSurvivesClose = FALSE
   MaxTry = 2
 PROPERTIES EventuallyReturns CloseReturns
 CHECK_DEADLOCK FALSE
